@@ -66,3 +66,45 @@ def exclude_known(cls: str, cond: Any) -> None:
         return
     if known_active(cls) and cond:
         _prune("known finding class " + cls)
+
+
+def symbolic_args(**spec: Any):
+    """Give a ``def h(**kw)`` harness an explicit keyword-only signature (name -> type).
+
+    Lets harnesses with many regularly-named symbolic parameters be declared programmatically;
+    unused parameters of atomic types cost nothing in the symbolic executor.
+    """
+    import inspect
+
+    def deco(fn):
+        params = [inspect.Parameter(n, inspect.Parameter.KEYWORD_ONLY, annotation=t) for n, t in spec.items()]
+        fn.__signature__ = inspect.Signature(params)
+        fn.__annotations__ = dict(spec)
+        return fn
+
+    return deco
+
+
+# ------------------------------------------------------------------ lazily created symbolic inputs
+FRESH: Dict[str, Any] = {}  # name -> value drawn on the current path (symbolic while exploring)
+FRESH_REPLAY: Dict[str, Any] = {}  # name -> concrete value (replay mode)
+
+
+def fresh(typ: Any, name: str) -> Any:
+    """A symbolic value of type *typ*, created at the point of first use on the current path.
+
+    CrossHair creates declared parameters eagerly and some types (float, Union, containers) fork at
+    creation, so parameters that a path never uses would multiply the path count.  Values drawn with
+    ``fresh`` are recorded by name; a counterexample lists them and the replay feeds them back.
+    """
+    if name in FRESH:
+        return FRESH[name]
+    if REPLAY or "crosshair.core" not in sys.modules:
+        if name not in FRESH_REPLAY:
+            raise PreconditionNotMet("replay has no value for " + name)
+        v = FRESH_REPLAY[name]
+    else:
+        core = sys.modules["crosshair.core"]
+        v = core.proxy_for_type(typ, name)
+    FRESH[name] = v
+    return v
